@@ -413,10 +413,38 @@ def _unenumerate(tree):
                                                           lineno=n.lineno), n))
 
 
+def _drop_dead_temporaries(fn):
+    """Parameter copies left behind by the inliner (`p__i3 = <pure>` never read) and `pass` statements in blocks that have other statements."""
+    import re
+    n = 0
+    loads = {x.id for x in ast.walk(fn) if isinstance(x, ast.Name) and isinstance(x.ctx, ast.Load)}
+    for node in ast.walk(fn):
+        for fld in ('body', 'orelse', 'finalbody'):
+            blk = getattr(node, fld, None)
+            if not (isinstance(blk, list) and blk and isinstance(blk[0], ast.stmt)):
+                continue
+            keep = []
+            for st in blk:
+                if isinstance(st, ast.Assign) and len(st.targets) == 1 and isinstance(st.targets[0], ast.Name) and re.search(r'__i\d+$', st.targets[0].id) \
+                        and st.targets[0].id not in loads and _pure(st.value):
+                    n += 1
+                    continue
+                keep.append(st)
+            if len(keep) > 1 and any(isinstance(st, ast.Pass) for st in keep):
+                n += sum(1 for st in keep if isinstance(st, ast.Pass))
+                keep = [st for st in keep if not isinstance(st, ast.Pass)]
+            if not keep:
+                keep = [ast.copy_location(ast.Pass(), blk[0])]
+            if len(keep) != len(blk):
+                setattr(node, fld, keep)
+    return n
+
+
 def normalize_module(tree):
     total = 0
     _unenumerate(tree)
     for fn in [n for n in ast.walk(tree) if isinstance(n, (ast.FunctionDef, ast.AsyncFunctionDef))]:
+        total += _drop_dead_temporaries(fn)
         # innermost functions first would be ideal; two rounds reach a fixpoint for chains of temporaries
         for _ in range(3):
             c = normalize_function(fn)
